@@ -160,7 +160,7 @@ def hyp_settings(max_examples, stateful_steps=None, shrink=True):
     return settings(**kw)
 
 
-def hyp_run(ctx, strategy, body, max_examples, shrink_calls=None):
+def hyp_run(ctx, strategy, body, max_examples, shrink_calls=None, salt=0):
     """Drive body(case) -> (nontrivial, classes[, sample]) over `strategy`.
     The first failure is shrunk within a bounded number of further executions; the smallest
     *really failing* case seen is what gets reported."""
@@ -184,7 +184,7 @@ def hyp_run(ctx, strategy, body, max_examples, shrink_calls=None):
         if st["best"] is None and res is not None:
             ctx.record(case, *res)
 
-    test = seed(ctx.hseed)(hyp_settings(max_examples)(given(strategy)(wrapped)))
+    test = seed(ctx.hseed * 1000003 + salt)(hyp_settings(max_examples)(given(strategy)(wrapped)))
     try:
         test()
     except Violation:
